@@ -487,7 +487,33 @@ def build_visit(mir, cube):
     SL = en['ModuleSlot']
     qs = [Query('no-panic', Or(g for _, g in eng.panics))]
     for fname_ in sorted({f for f, _ in eng.exceeded}): qs.append(Query('unwinding:' + fname_.split('>::')[-1], Or(g for f, g in eng.exceeded if f == fname_), kind='unwind'))
+    content_item = None
+    if kind == 'Module' and queued:
+        # the deferred content load queued for a registry file: poll it once (the loader future is environment and ready) to see what it carries
+        eng.cfg['stubs'] += [(re.compile(r'<Pin<Box<dyn .*Future<Output = Result<Option<LoadResponse>, LoadError>>>> as .*Future>::poll'), lambda e, c, a, g: EnumV(BV(0, 8), {0: Agg([Opaque('content load result')])})),
+                             (re.compile(r'<.* as .*IntoFuture>::into_future'), ident), (re.compile(r'Pin::<&mut .*>::new_unchecked'), lambda e, c, a, g: Agg([a[0]]))]
+        qg, fut = queued[0]
+        if isinstance(fut, CoroV):
+            span = re.match(r'\{coroutine@(.*?) \(#\d+\)\}', fut.span).group(1)
+            pr = eng.dispatch('<{async block@' + span + '} as Future>::poll', [Agg([ref_to(fut, 'content-load')]), Opaque('task context')], qg, None)
+            content_item = (qg, pr.vars[0].f[0]) if isinstance(pr, EnumV) and 0 in pr.vars else None
     if cube.get('c03'):
+        if content_item is not None:
+            qg, it = content_item; F = st['PendingContentLoadItem']
+            rng_f = it.f[F.index('maybe_range')]; sp_f = it.f[F.index('specifier')]
+            class CW:
+                has_fc = True
+                def to_json(self, m): return {'positions': True}
+            class OpCL:
+                # a jsr: import of a package whose version manifest embeds module information; nothing cached, the deferred content load finds nothing:
+                # the error entry of the file shows whether the referrer travelled with the deferred load
+                def op_json(self, m):
+                    return {'op': 'try_load', 'only_referrer_flag': True, 'asset': False, 'checksum_known': False, 'answers': ['NotFound', 'NotFound'], 'parse_ok': True, 'in_dynamic_branch': False,
+                            'redirect_count': 0, 'max_redirects': 10, 'route': 'jsr_specifier', 'embedded_info': True}
+                def decode(self, m): return {'err_has_referrer': ev(m, rng_f.tag) == 1}
+            real_cl = [has_pending_load, has_ref, has_vi, z3.Not(is_root), z3.Not(in_dyn), z3.Not(was_dyn_root), scheme == SCHEMES.index('https'), mclass == MSI.index('Js'), mt == MT.index('TypeScript'), pre_present, pre_pending]
+            qs.append(Query('a-deferred-content-load-keeps-the-specifier-and-the-referrer-of-the-request', z3.And(qg, z3.Or(rng_f.is_variant(1) != has_ref, sp_f.id != 0)), ops=[OpCL()], world=CW(), realizable=real_cl))
+            qs.append(Query('witness-deferred-content-load-with-referrer', z3.And(qg, has_ref), expect='sat', kind='witness', ops=[OpCL()], world=CW(), realizable=real_cl))
         pv = post.vals[0]
         settled = z3.And(post.present[0], pv.tag != SL.index('Pending')) if isinstance(pv, EnumV) else z3.BoolVal(False)
         if kind in ('Module', 'External'):
